@@ -181,3 +181,11 @@ def iter_not_substituted_in_alloc_extent(sig, case):
         and d.get("iter_in_alloc_extent")
         and sig.get("op") in ("divide_loop", "divide_with_recompute", "mult_loops", "shift_loop", "cut_loop", "join_loops", "unroll_loop")
     )
+
+
+# ---------------------------------------------------------------- C18
+def c18_address_dependent(sig, case):
+    """two runs of the very same environment (same PYTHONHASHSEED, same history) differ:
+    Sym.__hash__ is id(self), so the iteration order of sets / dicts keyed by symbols follows
+    memory addresses (ASLR, allocation history)"""
+    return sig.get("monitor") == "replay-diff" and sig.get("address_dependent") is True
